@@ -5,44 +5,154 @@ Translator plugin for C14: the two capacity constants of the virtual pipe,
     pub const PIPE_SIZE: usize = PIPE_BUF * 2;
 
 in yash-env/src/system/virtual/file_body.rs, rewritten into
-lean/YashModel/Generated/PipeConsts.lean as `PIPE_BUF PIPE_SIZE : Nat` (the defining *expressions* are
-translated, not evaluated, so `PIPE_SIZE` stays tied to `PIPE_BUF` the way the Rust source ties it).
-`YashModel.Pipe.real_valid` (1 <= PIPE_BUF <= PIPE_SIZE, the hypothesis of every C14 theorem) is stated
-over these generated definitions, so an edit of either constant re-checks it (and breaks it if, e.g.,
-PIPE_SIZE drops below PIPE_BUF).
+lean/YashModel/Generated/PipeConsts.lean as `PIPE_BUF PIPE_SIZE : Nat`.
+
+The defining expressions are *parsed* (a small constant-expression evaluator: integer literals in
+decimal / hex / octal / binary with `_` separators and type suffixes, `+ - * / % << >> | & ^`, parentheses,
+`as <integer type>` casts, references to other `const` items of the same file) and emitted both as a
+Lean expression that keeps the references between the two extracted constants (so `PIPE_SIZE` stays tied
+to `PIPE_BUF` the way the Rust source ties it) and as the evaluated value in the doc comment.  Anything
+the evaluator does not understand makes the translator fail loudly.
+
+Nothing else is read from that file: the blocking condition, the atomicity rule and the read/write arms
+are *mechanism*, transcribed by hand in lean/YashModel/Pipe/Model.lean and tied to the code by the
+correspondence run (op sequences), not by this extractor — so a restructuring of those arms cannot
+break the translator, and a change of their behaviour is seen by the run.
+
+`YashModel.Pipe.real_valid` (1 <= PIPE_BUF <= PIPE_SIZE, the hypothesis of the transfer theorems) is
+stated over the generated definitions, so an edit of either constant re-checks it.
 """
 import re
 
 FILE = "yash-env/src/system/virtual/file_body.rs"
 NAMES = ["PIPE_BUF", "PIPE_SIZE"]
+INT_TYPES = {"usize", "isize", "u8", "u16", "u32", "u64", "u128", "i8", "i16", "i32", "i64", "i128"}
+
+# Rust binary operator precedence (higher binds tighter) and the Lean spelling on Nat
+BINOPS = {
+    "*": (7, "*"), "/": (7, "/"), "%": (7, "%"),
+    "+": (6, "+"), "-": (6, "-"),
+    "<<": (5, "<<<"), ">>": (5, ">>>"),
+    "&": (4, "&&&"),
+    "^": (3, "^^^"),
+    "|": (2, "|||"),
+}
+
+TOKEN = re.compile(
+    r"\s*(?:(0[xX][0-9a-fA-F_]+|0[oO][0-7_]+|0[bB][01_]+|[0-9][0-9_]*)([iu](?:8|16|32|64|128|size))?"
+    r"|([A-Za-z_][A-Za-z_0-9]*(?:::[A-Za-z_][A-Za-z_0-9]*)*)|(<<|>>|[-+*/%&|^()]))")
 
 
-def _expr(h, src, name):
-    m = re.search(r"pub\s+const\s+" + name + r"\s*:\s*usize\s*=\s*([^;]+);", src)
-    if not m:
-        h.fail(f"anchor not found: pub const {name}: usize in {FILE}")
-    text = m.group(1).strip()
-    out = []
-    for tok in re.findall(r"\s*([A-Za-z_][A-Za-z_0-9]*|[0-9][0-9_]*(?:usize)?|0x[0-9a-fA-F_]+|[-+*/()]|\S)", text):
-        if re.fullmatch(r"[0-9][0-9_]*(?:usize)?", tok):
-            out.append(str(int(tok.replace("usize", "").replace("_", ""))))
-        elif re.fullmatch(r"0x[0-9a-fA-F_]+", tok):
-            out.append(str(int(tok.replace("_", ""), 16)))
-        elif tok in NAMES:
-            out.append(tok)
-        elif tok in "+-*/()":
-            out.append(tok)
+class Evaluator:
+    def __init__(self, h, src):
+        self.h = h
+        self.src = src
+        self.cache = {}
+        self.stack = []
+
+    def const_text(self, name):
+        m = re.search(r"\bconst\s+" + re.escape(name) + r"\s*:\s*([A-Za-z0-9_]+)\s*=\s*([^;]+);", self.src)
+        if not m:
+            self.h.fail(f"anchor not found: const {name} in {FILE}")
+        if m.group(1) not in INT_TYPES:
+            self.h.fail(f"const {name} in {FILE}: type {m.group(1)} is not an integer type")
+        return m.group(2).strip()
+
+    def const(self, name):
+        """(value, lean expression) of a const item of the file"""
+        if name in self.cache:
+            return self.cache[name]
+        if name in self.stack:
+            self.h.fail(f"const {name} in {FILE}: cyclic definition")
+        self.stack.append(name)
+        text = self.const_text(name)
+        toks = self.tokenize(name, text)
+        pos, val, lean = self.expr(name, text, toks, 0, 0)
+        if pos != len(toks):
+            self.h.fail(f"const {name} in {FILE}: cannot translate token {toks[pos][1]!r} of `{text}`")
+        self.stack.pop()
+        self.cache[name] = (val, lean, text)
+        return self.cache[name]
+
+    def tokenize(self, name, text):
+        toks, i = [], 0
+        while i < len(text):
+            if text[i:].strip() == "":
+                break
+            m = TOKEN.match(text, i)
+            if not m:
+                bad = text[i:].strip().split()[0]
+                self.h.fail(f"const {name} in {FILE}: cannot translate token {bad!r} of `{text}`")
+            if m.group(1) is not None:
+                lit = m.group(1).replace("_", "")
+                toks.append(("int", m.group(0).strip(), int(lit, 0) if not lit.lower().startswith("0o") else int(lit[2:], 8)))
+            elif m.group(3) is not None:
+                toks.append(("id", m.group(3), None))
+            else:
+                toks.append(("op", m.group(4), None))
+            i = m.end()
+        return toks
+
+    def atom(self, name, text, toks, pos):
+        if pos >= len(toks):
+            self.h.fail(f"const {name} in {FILE}: `{text}` ends unexpectedly")
+        kind, tok, val = toks[pos]
+        if kind == "int":
+            pos, v, lean = pos + 1, val, str(val)
+        elif kind == "id":
+            ident = tok.split("::")[-1]
+            if tok in ("as",) or ident in INT_TYPES:
+                self.h.fail(f"const {name} in {FILE}: cannot translate token {tok!r} of `{text}`")
+            v, inner, _ = self.const(ident)
+            # keep the tie between the extracted constants; inline any other const of the file
+            lean = ident if ident in NAMES else f"({inner})"
+            pos += 1
+        elif kind == "op" and tok == "(":
+            pos, v, inner = self.expr(name, text, toks, pos + 1, 0)
+            if pos >= len(toks) or toks[pos][1] != ")":
+                self.h.fail(f"const {name} in {FILE}: missing `)` in `{text}`")
+            pos, lean = pos + 1, f"({inner})"
         else:
-            h.fail(f"const {name} in {FILE}: cannot translate token {tok!r} of `{text}`")
-    return text, " ".join(out)
+            self.h.fail(f"const {name} in {FILE}: cannot translate token {tok!r} of `{text}`")
+        # `as <integer type>` casts (binding tighter than any binary operator) do not change a usize value
+        while pos + 1 < len(toks) and toks[pos] == ("id", "as", None) and toks[pos + 1][0] == "id":
+            if toks[pos + 1][1] not in INT_TYPES:
+                self.h.fail(f"const {name} in {FILE}: cast to {toks[pos + 1][1]!r} in `{text}`")
+            pos += 2
+        return pos, v, lean
+
+    def expr(self, name, text, toks, pos, min_prec):
+        pos, lhs, lean = self.atom(name, text, toks, pos)
+        while pos < len(toks) and toks[pos][0] == "op" and toks[pos][1] in BINOPS:
+            op = toks[pos][1]
+            prec, lean_op = BINOPS[op]
+            if prec < min_prec:
+                break
+            pos, rhs, rlean = self.expr(name, text, toks, pos + 1, prec + 1)
+            if op in ("/", "%") and rhs == 0:
+                self.h.fail(f"const {name} in {FILE}: division by zero in `{text}`")
+            if op == "-" and rhs > lhs:
+                self.h.fail(f"const {name} in {FILE}: `{text}` underflows")
+            lhs = {"*": lhs * rhs, "/": lhs // rhs if rhs else 0, "%": lhs % rhs if rhs else 0, "+": lhs + rhs,
+                   "-": lhs - rhs, "<<": lhs << rhs, ">>": lhs >> rhs, "&": lhs & rhs, "^": lhs ^ rhs,
+                   "|": lhs | rhs}[op]
+            lean = f"({lean} {lean_op} {rlean})"
+        return pos, lhs, lean
 
 
 def pipe_consts(h):
     src = h.read(FILE)
+    ev = Evaluator(h, src)
     body = ""
     for name in NAMES:
-        text, lean = _expr(h, src, name)
-        body += f"/-- `pub const {name}: usize = {text};` of {FILE} -/\ndef {name} : Nat := {lean}\n\n"
+        m = re.search(r"pub\s+const\s+" + name + r"\s*:", src)
+        if not m:
+            h.fail(f"anchor not found: pub const {name}: usize in {FILE}")
+        val, lean, text = ev.const(name)
+        if lean.startswith("(") and lean.endswith(")") and lean.count("(") == 1:
+            lean = lean[1:-1]
+        body += (f"/-- `pub const {name}: usize = {text};` of {FILE} (= {val}) -/\n"
+                 f"def {name} : Nat := {lean}\n\n")
     h.write("PipeConsts", body.rstrip("\n") + "\n")
 
 
